@@ -30,7 +30,7 @@ SIGILL = 4
 REASONS = {1: 'outer-scope-use-not-detected', 2: 'misaligned-pointer', 3: 'block-outside-frame', 4: 'live-blocks-overlap',
            5: 'live-block-contents-changed', 6: 'realloc-prefix-lost', 7: 'cleanups-wrong', 8: 'unexpected-trap',
            9: 'unexpected-exit', 10: 'crash', 11: 'null-result', 12: 'bad-event', 13: 'frame-len-reset', 14: 'bad-handle',
-           15: 'outside-api'}
+           15: 'outside-api', 16: 'outer-scope-shrink-not-detected'}
 
 
 def constants():
@@ -66,7 +66,7 @@ def pick_size(rng, big_ok=True):
     return rng.randint(30000, 140000)
 
 
-def gen_seq(rng, maxops, two_arenas, allow_misuse=True):
+def gen_seq(rng, maxops, two_arenas, allow_misuse=True, shrink_validated=True):
     """One sequence (list of op strings for the C harness) that respects the API, except that with small probability it
     ends in a use of a non-innermost scope (which the arena has to refuse) or in a request nothing can satisfy."""
     A = [GenArena(), GenArena()]
@@ -166,8 +166,20 @@ def gen_seq(rng, maxops, two_arenas, allow_misuse=True):
                     new = old + rng.choice([1, 7, 8, 9, 16, 100, 1000, 5000])       # grow a little
                 else:
                     new = old + pick_size(rng)                                      # grow a lot
-                if new <= old:
-                    # shrinking through scope k is within the API only for a block of that scope or an outer one
+                if new <= old and shrink_validated:
+                    # the repaired source validates the scope on the shrinking path too: through a scope that is
+                    # not the innermost one it has to trap, whatever scope the block belongs to (this includes
+                    # the former hole: a block of an inner scope shrunk through an outer scope)
+                    if allow_misuse and S.depth >= 2 and rng.random() < 0.12:
+                        k = rng.randint(1, S.depth - 1)
+                        misuse = True
+                    else:
+                        k = 0
+                        misuse = False
+                    level = S.depth - k
+                elif new <= old:
+                    # a source without that validation: shrinking through scope k is silent; it is within the
+                    # narrow API only for a block of that scope or an outer one
                     ks = [kk for kk in range(S.depth) if S.labels[src]['level'] <= S.depth - kk]
                     k = rng.choice(ks)
                     level = S.depth - k
@@ -235,6 +247,11 @@ def gen_seq(rng, maxops, two_arenas, allow_misuse=True):
                 if objs[o]['kind'] == 'B':
                     n = rng.choice([1, 10, 100, 1000, 20000])
                     ops.append('%d BP %d %s' % (a, o, common.hexs(bytes(rng.choice(b'abc') for _ in range(n)))))
+                elif rng.random() < 0.3:
+                    # vector_reserve with room left but not enough: the old size vector.c names is smaller than the
+                    # block (outside the API the theorems assume: the oracle stops judging there, the model is still
+                    # compared with the implementation)
+                    ops.append('%d VR %d %d' % (a, o, rng.choice([2, 5, 17, 40, 100])))
                 else:
                     ops.append('%d VA %d %d' % (a, o, rng.choice([1, 5, 17, 40, 300])))
                 if misuse:
@@ -347,8 +364,9 @@ def cfg_toks(consts, asan, pagesize, oracle=False):
     """configuration for the model: everything as the source has it; for the oracle the alignment demanded is the
     platform's pointer size, whatever arena.c uses"""
     gap = consts['poison_asan'] if asan else consts['poison_normal']
-    return '%d %d %d %d %d' % (consts['pointer_size'] if oracle else consts['maxalign'], consts['sizeof_frame'],
-                               consts['sizeof_cleanup'], gap, consts['frame_mult'] * pagesize)
+    return '%d %d %d %d %d %d' % (consts['pointer_size'] if oracle else consts['maxalign'], consts['sizeof_frame'],
+                                  consts['sizeof_cleanup'], gap, consts['frame_mult'] * pagesize,
+                                  consts['shrink_validated'])
 
 
 def ending_word(parsed, a):
@@ -540,7 +558,9 @@ def run(ctx, n=None, maxops=None):
     res.rule = ('operation sequences that respect the API (strictly LIFO scopes, realloc with the true old size, writes inside '
                 'live blocks) over enter/leave/malloc/calloc/realloc/strndup/strdup/sprintf/cleanup/fill/arena_free, sizes 0 .. '
                 '1 MiB aimed at alignment and frame boundaries, one or two arenas, arena-backed buffers and vectors; a few '
-                'sequences end in a use of a non-innermost scope (must trap) or in a request no frame can hold (must exit); '
+                'sequences end in a use of a non-innermost scope - allocation, cleanup, growing or shrinking realloc of a block '
+                'of any scope - (must trap) or in a request no frame can hold (must exit); vector_reserve on a vector that is '
+                'not full (names less than the block size: model compared, oracle stops judging); '
                 'non-trivial = at least 6 primitive operations and (a second frame, a reallocation, or a trap/exit); '
                 'distinct by sequence hash; every sequence runs in the normal and in the ASan build')
     consts = constants()
@@ -549,7 +569,8 @@ def run(ctx, n=None, maxops=None):
     seqs = load_corpus()
     ncorpus = len(seqs)
     for i in range(n):
-        seqs.append({'seq': gen_seq(ctx.rng, maxops if i % 4 else 12, two_arenas=(i % 3 == 0))})
+        seqs.append({'seq': gen_seq(ctx.rng, maxops if i % 4 else 12, two_arenas=(i % 3 == 0),
+                                    shrink_validated=bool(consts['shrink_validated']))})
     res.samples = seqs[ncorpus:ncorpus + 3]
     res.assumptions = ['sequences of at most %d generator operations, sizes up to 1 MiB plus requests >= 2^63 '
                        '(the theorems have no bound)' % maxops]
